@@ -551,6 +551,37 @@ func init() {
 							}
 						}
 					}
+					// a sign-out whose presented ticket does not validate RIGHT NOW (stamped by a replica whose clock runs ahead;
+					// a damaged copy in front of the live cookie) cannot know which stored session to remove: it must not claim success
+					// while that session is still in the store
+					if redis {
+						for _, variant := range []string{"stamped-in-the-future", "damaged-copy-first"} {
+							e.mr.FlushAll()
+							var ck string
+							switch variant {
+							case "stamped-in-the-future":
+								ck = e.issueSessionCookie(e.sessionFor(u, -(5*time.Minute + 30*time.Second)))
+							default:
+								live := e.issueSessionCookie(e.sessionFor(u, 30*time.Second))
+								ck = tamperMid(live) + "; " + live
+							}
+							keysBefore := len(e.mr.Keys())
+							so := e.do(reqSpec{Target: e.opts.ProxyPrefix + "/sign_out", Cookie: ck})
+							left := 0
+							for _, k := range e.mr.Keys() {
+								if !strings.HasSuffix(k, ".lock") {
+									left++
+								}
+							}
+							c.casen(fmt.Sprintf("c11|unvalidatable|%s|%v|%s", variant, dom, path), fmt.Sprint(so.Status))
+							c.count("signout:unvalidatable-ticket")
+							if so.Status == 302 && keysBefore > 0 && left > 0 {
+								c.violation("C11", "sign-out answered with the success redirect although the presented ticket could not be validated and the stored session is still in the store ("+variant+")",
+									map[string]interface{}{"variant": variant, "status": so.Status, "store_entries_left": left})
+							}
+						}
+						e.mr.FlushAll()
+					}
 					// a sign-out that cannot remove the stored session is an error, not the redirect
 					if redis {
 						b := newBrowser()
@@ -589,7 +620,7 @@ func init() {
 				}
 			}
 		}
-		c.close([]string{"serve:signout", "signout:replay", "signout:del-fault", "signout:parts-1", "signout:refresh-at-signout", "signout:during-refresh", "signout:outage", "signout:foreign-host"})
+		c.close([]string{"serve:signout", "signout:replay", "signout:del-fault", "signout:parts-1", "signout:refresh-at-signout", "signout:during-refresh", "signout:outage", "signout:foreign-host", "signout:unvalidatable-ticket"})
 	})
 
 	registerSuite("cookieattrs", func(c *suiteCtx) {
